@@ -241,8 +241,34 @@ func TestC17(t *testing.T) {
 
 		// operations
 		op := rapid.SampledFrom([]string{"cmp", "cmp", "cmp-undeclared", "in", "like", "sort", "colcmp"}).Draw(t, "op")
-		opDesc := ""
-		full := func() string { return desc() + "\nop " + opDesc }
+		opDesc, fvia := "", "as constructed"
+		full := func() string { return desc() + "\nop " + opDesc + " (filtered frame: " + fvia + ")" }
+		// comparisons, in-lists and like also run on the column as other operations rebuild it (declared enums):
+		// as the key column of an Aggregate or Distinct result, as a copy, on a slice
+		fq, ftab := qf, tab
+		if declared && wantErr == "" && (op == "cmp" || op == "in" || op == "like") && rapid.IntRange(0, 2).Draw(t, "filtervia") == 0 {
+			fvia = rapid.SampledFrom([]string{"aggregate-key", "distinct", "copy", "slice"}).Draw(t, "fvia")
+			switch fvia {
+			case "aggregate-key":
+				fq = qf.GroupBy(groupby.Columns("e")).Aggregate(qframe.Aggregation{Fn: "min", Column: "id"})
+			case "distinct":
+				fq = qf.Distinct(groupby.Columns("e"))
+			case "copy":
+				fq = qf.Copy("e2", "e").Drop("e").Copy("e", "e2").Drop("e2")
+			case "slice":
+				fq = qf.Slice(n/3, n)
+			}
+			obs, err := hx.Observe(fq)
+			if err != nil || fq.Err != nil {
+				t.Fatalf("%s: %v %v\n%s", fvia, fq.Err, err, desc())
+			}
+			if ei := obs.Find("e"); ei >= 0 && obs.Cols[ei].Kind == hx.KEnum {
+				obs.Cols[ei].Enum = enumConf
+			} else {
+				t.Fatalf("after %s the column e is no enum column any more\n%s", fvia, desc())
+			}
+			ftab = obs
+		}
 		switch op {
 		case "colcmp":
 			// the column against a second enum column of the same declared list, row by row, on a frame whose index
@@ -350,13 +376,13 @@ func TestC17(t *testing.T) {
 				}
 				break
 			}
-			res := qf.Filter(cl.Build(hx.KindMap(tab)))
+			res := fq.Filter(cl.Build(hx.KindMap(ftab)))
 			if res.Err != nil {
 				t.Fatalf("filter failed: %v\n%s", res.Err, full())
 			}
 			var keep []int
-			for r := 0; r < n; r++ {
-				if cl.Eval(tab, r) {
+			for r := 0; r < ftab.N(); r++ {
+				if cl.Eval(ftab, r) {
 					keep = append(keep, r)
 				}
 			}
@@ -364,7 +390,7 @@ func TestC17(t *testing.T) {
 			if err != nil {
 				t.Fatal(err)
 			}
-			if diff := hx.Diff(tab.Rows(keep), got); diff != "" {
+			if diff := hx.Diff(ftab.Rows(keep), got); diff != "" {
 				t.Fatalf("filter result differs from the rank model: %s\n%s", diff, full())
 			}
 		case "in":
@@ -378,18 +404,18 @@ func TestC17(t *testing.T) {
 			if ls == nil {
 				cl.LS = []string{}
 			}
-			res := qf.Filter(cl.Build(hx.KindMap(tab)))
+			res := fq.Filter(cl.Build(hx.KindMap(ftab)))
 			if res.Err != nil {
 				t.Fatalf("filter failed: %v\n%s", res.Err, full())
 			}
 			var keep []int
-			for r := 0; r < n; r++ {
-				if cl.Eval(tab, r) {
+			for r := 0; r < ftab.N(); r++ {
+				if cl.Eval(ftab, r) {
 					keep = append(keep, r)
 				}
 			}
 			got, _ := hx.Observe(res)
-			if diff := hx.Diff(tab.Rows(keep), got); diff != "" {
+			if diff := hx.Diff(ftab.Rows(keep), got); diff != "" {
 				t.Fatalf("in-filter result differs from the model: %s\n%s", diff, full())
 			}
 		case "like":
@@ -397,18 +423,18 @@ func TestC17(t *testing.T) {
 			comp := rapid.SampledFrom([]string{"like", "ilike"}).Draw(t, "likecomp")
 			opDesc = fmt.Sprintf("filter e %s %q", comp, pat)
 			cl := hx.StrConst("e", comp, pat)
-			res := qf.Filter(cl.Build(hx.KindMap(tab)))
+			res := fq.Filter(cl.Build(hx.KindMap(ftab)))
 			if res.Err != nil {
 				t.Fatalf("filter failed: %v\n%s", res.Err, full())
 			}
 			var keep []int
-			for r := 0; r < n; r++ {
-				if cl.Eval(tab, r) {
+			for r := 0; r < ftab.N(); r++ {
+				if cl.Eval(ftab, r) {
 					keep = append(keep, r)
 				}
 			}
 			got, _ := hx.Observe(res)
-			if diff := hx.Diff(tab.Rows(keep), got); diff != "" {
+			if diff := hx.Diff(ftab.Rows(keep), got); diff != "" {
 				t.Fatalf("like-filter result differs from the model: %s\n%s", diff, full())
 			}
 		case "sort":
